@@ -24,3 +24,17 @@
 //    computed, every other option's entry is untouched
       final(self).option_values@ == old(self).option_values@.insert(name@, option_value)
 //@ end
+
+//@ fn cln_plugin::Builder::configure#handover
+//@ returns r
+//@ implicit [C19,C17]
+//@ ensures#the_plugin_reads_the_very_table_the_handshake_filled [C19,C04,C11,C12]
+//    what handle_init stored (slice handle_init#store) is what ConfiguredPlugin::option reads (unit optread)
+      r is Ok && r->Ok_0 is Some && r->Ok_0->0.option_values == self.option_values && r->Ok_0->0.options == self.options
+//@ ensures#the_handshake_s_streams_init_id_and_tables_are_handed_on_unchanged [C17,C06,C20]
+      r is Ok && r->Ok_0 is Some && ({ let cp = r->Ok_0->0;
+          cp.init_id == init_id && cp.input == input && cp.output == output && cp.rpcmethods == rpcmethods
+          && cp.subscriptions == subscriptions && cp.wildcard_subscription == all_subscription
+          && cp.setconfig_callback == self.setconfig_callback && cp.notifications == self.notifications
+          && cp.configuration == configuration })
+//@ end
